@@ -24,7 +24,10 @@ use std::str::FromStr;
 use std::sync::Arc;
 
 pub const N_KEYS: usize = 16;
-pub const UNSPENDABLE: usize = 99;
+pub const UNSPENDABLE: usize = 9000;
+pub const N_TABLE: usize = 1100; // keys available to the near-limit stream
+pub const UNC_FROM: usize = 800; // Bare/Legacy tables: indices from here are uncompressed keys
+pub const N_PRE: usize = 160; // distinct preimages
 
 /// The generator's own policy tree (independent of the library's types).
 #[derive(Clone, Debug, PartialEq)]
@@ -155,7 +158,7 @@ impl P {
                     let kind = HASH_NAMES.iter().position(|n| *n == name)? as u8;
                     let h = t.get(*i)?.clone();
                     *i += 1;
-                    let j = (0..8).find(|j| hash_hex(kind, *j) == h)?;
+                    let j = (0..N_PRE).find(|j| hash_hex(kind, *j) == h)?;
                     P::Hash(kind, j)
                 }
                 "and" => {
@@ -202,9 +205,10 @@ impl P {
 // ------------------------------------------------------------------ key tables
 /// key index -> key string, per key mode and context family
 pub struct KeyTable {
-    pub strs: Vec<String>,   // N_KEYS entries
+    pub strs: Vec<String>,   // N_TABLE entries
     pub kinds: Vec<char>,    // c compressed / u uncompressed / x x-only
     pub unspendable: String, // internal key supplied when no key can be extracted
+    index: std::collections::HashMap<String, usize>,
 }
 
 fn real_pk(i: usize) -> bitcoin::secp256k1::PublicKey {
@@ -214,27 +218,41 @@ fn real_pk(i: usize) -> bitcoin::secp256k1::PublicKey {
     bitcoin::secp256k1::PublicKey::from_secret_key(&secp, &sk)
 }
 
-pub fn key_table(mode: &str, tap: bool, legacy_like: bool) -> KeyTable {
+fn real_pks() -> &'static Vec<bitcoin::secp256k1::PublicKey> {
+    static PKS: std::sync::OnceLock<Vec<bitcoin::secp256k1::PublicKey>> = std::sync::OnceLock::new();
+    PKS.get_or_init(|| (0..N_TABLE).map(real_pk).collect())
+}
+
+/// Tables are built once per (mode, tap, legacy_like).  Indices 0..15 are what the random stream
+/// uses; the near-limit stream uses the rest (>= UNC_FROM: uncompressed in Bare/Legacy tables).
+pub fn key_table(mode: &str, tap: bool, legacy_like: bool) -> Arc<KeyTable> {
+    static CACHE: std::sync::OnceLock<std::sync::Mutex<std::collections::HashMap<(String, bool, bool), Arc<KeyTable>>>> =
+        std::sync::OnceLock::new();
+    let cache = CACHE.get_or_init(|| std::sync::Mutex::new(std::collections::HashMap::new()));
+    let key = (mode.to_string(), tap, legacy_like);
+    if let Some(t) = cache.lock().unwrap().get(&key) {
+        return Arc::clone(t);
+    }
     let mut strs = Vec::new();
     let mut kinds = Vec::new();
-    for i in 0..N_KEYS {
+    for i in 0..N_TABLE {
         if mode == "string" {
             strs.push(format!("K{}", i));
             kinds.push('c');
-        } else if tap && mode == "realmix" && i >= 14 {
+        } else if tap && mode == "realmix" && (i == 14 || i == 15) {
             // a key kind the context must refuse
-            let pk = bitcoin::PublicKey { inner: real_pk(i), compressed: false };
+            let pk = bitcoin::PublicKey { inner: real_pks()[i], compressed: false };
             strs.push(format!("{}", pk));
             kinds.push('u');
         } else if tap || (mode == "realmix" && legacy_like && (i == 12 || i == 13)) {
-            strs.push(format!("{}", real_pk(i).x_only_public_key().0));
+            strs.push(format!("{}", real_pks()[i].x_only_public_key().0));
             kinds.push('x');
-        } else if legacy_like && i >= 14 {
-            let pk = bitcoin::PublicKey { inner: real_pk(i), compressed: false };
+        } else if legacy_like && (i == 14 || i == 15 || i >= UNC_FROM) {
+            let pk = bitcoin::PublicKey { inner: real_pks()[i], compressed: false };
             strs.push(format!("{}", pk));
             kinds.push('u');
         } else {
-            let pk = bitcoin::PublicKey { inner: real_pk(i), compressed: true };
+            let pk = bitcoin::PublicKey { inner: real_pks()[i], compressed: true };
             strs.push(format!("{}", pk));
             kinds.push('c');
         }
@@ -246,7 +264,10 @@ pub fn key_table(mode: &str, tap: bool, legacy_like: bool) -> KeyTable {
     } else {
         format!("{}", bitcoin::PublicKey { inner: real_pk(UNSPENDABLE), compressed: true })
     };
-    KeyTable { strs, kinds, unspendable }
+    let index = strs.iter().enumerate().map(|(i, s)| (s.clone(), i)).collect();
+    let t = Arc::new(KeyTable { strs, kinds, unspendable, index });
+    cache.lock().unwrap().insert(key, Arc::clone(&t));
+    t
 }
 
 impl KeyTable {
@@ -254,7 +275,7 @@ impl KeyTable {
         if s == self.unspendable {
             return UNSPENDABLE;
         }
-        self.strs.iter().position(|x| x == s).unwrap_or(9999)
+        self.index.get(s).copied().unwrap_or(99999)
     }
 }
 
@@ -824,47 +845,76 @@ fn compile_desc<Pk: FromStrKey + EncLen>(
     }
 }
 
-fn all_apis<Pk: FromStrKey + EncLen>(out: &mut String, id: &str, p: &P, mode: &str) {
+fn all_apis<Pk: FromStrKey + EncLen>(out: &mut String, id: &str, p: &P, mode: &str, only: Option<&str>) {
+    let want = |c: &str| only.map_or(true, |o| o == c || (o == "taplim" && c == "taplim-core"));
     let kt_l = key_table(mode, false, true);
     // mode "realmix": the segwit contexts also see the two uncompressed keys (14, 15), which they
     // must refuse -- an Ok output containing one is rejected by the validator's key-kind rule
     let kt_s = key_table(mode, false, mode == "realmix");
     let kt_t = key_table(mode, true, false);
-    compile_ms::<Pk, BareCtx>(out, id, "bare", p, &kt_l);
-    compile_ms::<Pk, Legacy>(out, id, "legacy", p, &kt_l);
-    compile_ms::<Pk, Segwitv0>(out, id, "segwitv0", p, &kt_s);
-    compile_ms::<Pk, Tap>(out, id, "tap", p, &kt_t);
+    if want("bare") {
+        compile_ms::<Pk, BareCtx>(out, id, "bare", p, &kt_l);
+    }
+    if want("legacy") {
+        compile_ms::<Pk, Legacy>(out, id, "legacy", p, &kt_l);
+    }
+    if want("segwitv0") {
+        compile_ms::<Pk, Segwitv0>(out, id, "segwitv0", p, &kt_s);
+    }
+    if want("tap") || want("taplim-core") {
+        compile_ms::<Pk, Tap>(out, id, "tap", p, &kt_t);
+    }
     let ce = |e: miniscript::Error| class_of(&e);
+    if want("bare") {
     compile_desc::<Pk>(out, id, "desc", "bare", p, &kt_l, &|pol, _| {
         pol.compile_to_descriptor::<BareCtx>(DescriptorCtx::Bare).map_err(ce)
     });
+    }
+    if want("legacy") {
     compile_desc::<Pk>(out, id, "desc", "sh", p, &kt_l, &|pol, _| {
         pol.compile_to_descriptor::<Legacy>(DescriptorCtx::Sh).map_err(ce)
     });
+    }
+    if want("segwitv0") {
     compile_desc::<Pk>(out, id, "desc", "wsh", p, &kt_s, &|pol, _| {
         pol.compile_to_descriptor::<Segwitv0>(DescriptorCtx::Wsh).map_err(ce)
     });
+    }
+    if want("segwitv0") {
     compile_desc::<Pk>(out, id, "desc", "shwsh", p, &kt_s, &|pol, _| {
         pol.compile_to_descriptor::<Segwitv0>(DescriptorCtx::ShWsh).map_err(ce)
     });
+    }
+    if want("tap") {
     compile_desc::<Pk>(out, id, "desc", "tr-none", p, &kt_t, &|pol, _| {
         pol.compile_to_descriptor::<Tap>(DescriptorCtx::Tr(None)).map_err(ce)
     });
+    }
+    if want("tap") {
     compile_desc::<Pk>(out, id, "desc", "tr-unsp", p, &kt_t, &|pol, u| {
         pol.compile_to_descriptor::<Tap>(DescriptorCtx::Tr(u)).map_err(ce)
     });
+    }
+    if want("tap") {
     compile_desc::<Pk>(out, id, "tr", "tr-none", p, &kt_t, &|pol, _| {
         pol.compile_tr(None).map_err(|e| class_of(&e))
     });
+    }
+    if want("tap") || want("taplim-core") {
     compile_desc::<Pk>(out, id, "tr", "tr-unsp", p, &kt_t, &|pol, u| {
         pol.compile_tr(u).map_err(|e| class_of(&e))
     });
+    }
+    if want("tap") {
     compile_desc::<Pk>(out, id, "trnative", "tr-unsp", p, &kt_t, &|pol, u| {
         pol.compile_tr_native(u, 64).map_err(|e| class_of(&e))
     });
+    }
+    if want("tap") {
     compile_desc::<Pk>(out, id, "trpriv", "tr-unsp", p, &kt_t, &|pol, u| {
         pol.compile_tr_private_experimental(u).map_err(ce)
     });
+    }
 }
 
 // ------------------------------------------------------------------ generator
@@ -1101,7 +1151,7 @@ pub fn gen_policy(seed: u64, idx: u64, max_leaves: usize) -> (String, P) {
     }
 }
 
-fn run_case(out: &mut String, id: &str, shape: &str, p: &P, mode: &str) {
+pub(crate) fn run_case(out: &mut String, id: &str, shape: &str, p: &P, mode: &str, only: Option<&str>) {
     writeln!(out, "CASE {} mode={} shape={} leaves={}", id, mode, shape, p.n_leaves()).unwrap();
     writeln!(out, "POL {}", p.token_str()).unwrap();
     // the library's own view of the policy (built value, Display) -- tie of the generator's dump
@@ -1127,9 +1177,9 @@ fn run_case(out: &mut String, id: &str, shape: &str, p: &P, mode: &str) {
         Err(e) => writeln!(out, "POLERR {}", e.replace('\n', " ")).unwrap(),
     }
     if mode == "string" {
-        all_apis::<String>(out, id, p, mode);
+        all_apis::<String>(out, id, p, mode, only);
     } else {
-        all_apis::<DefiniteDescriptorKey>(out, id, p, mode);
+        all_apis::<DefiniteDescriptorKey>(out, id, p, mode, only);
     }
     writeln!(out, "END {}", id).unwrap();
 }
@@ -1150,7 +1200,7 @@ pub fn run(args: &[String]) {
         };
         let id = format!("s{}-{}", seed, i);
         let mut out = String::new();
-        run_case(&mut out, &id, &shape, &p, mode);
+        run_case(&mut out, &id, &shape, &p, mode, None);
         print!("{}", out);
         *hist.entry(shape).or_insert(0) += 1;
     }
@@ -1159,10 +1209,23 @@ pub fn run(args: &[String]) {
     }
 }
 
-/// Replay of one policy given as tokens
+/// Replay of one policy given as tokens: compile-one <mode> [only=<ctx>] <tokens...>
 pub fn run_one(args: &[String]) {
+    // deep conjunctions of the near-limit stream: plenty of stack
+    let a: Vec<String> = args.to_vec();
+    std::thread::Builder::new().stack_size(1 << 30).spawn(move || run_one_body(&a)).unwrap().join().unwrap();
+}
+fn run_one_body(args: &[String]) {
     let mode = args.first().map(|s| s.as_str()).unwrap_or("string");
-    let p = match P::parse(&args[1..]) {
+    let mut rest = &args[1.min(args.len())..];
+    let mut only: Option<String> = None;
+    if let Some(f) = rest.first() {
+        if let Some(c) = f.strip_prefix("only=") {
+            only = Some(c.to_string());
+            rest = &rest[1..];
+        }
+    }
+    let p = match P::parse(rest) {
         Some(p) => p,
         None => {
             eprintln!("cannot parse policy tokens");
@@ -1170,6 +1233,34 @@ pub fn run_one(args: &[String]) {
         }
     };
     let mut out = String::new();
-    run_case(&mut out, "replay", "replay", &p, mode);
+    run_case(&mut out, "replay", "replay", &p, mode, only.as_deref());
     print!("{}", out);
+}
+
+/// Does compile::<Ctx> of the policy succeed in the named context? (bisection oracle of the
+/// near-limit stream)
+pub(crate) fn ok_in_ctx(p: &P, mode: &str, ctx: &str) -> bool {
+    fn go<Pk: FromStrKey>(p: &P, mode: &str, ctx: &str) -> bool {
+        let kt = match ctx {
+            "tap" => key_table(mode, true, false),
+            "segwitv0" => key_table(mode, false, false),
+            _ => key_table(mode, false, true),
+        };
+        let pol = match build::<Pk>(p, &kt) {
+            Ok(x) => x,
+            Err(_) => return false,
+        };
+        catch_unwind(AssertUnwindSafe(|| match ctx {
+            "bare" => pol.compile::<BareCtx>().is_ok(),
+            "legacy" => pol.compile::<Legacy>().is_ok(),
+            "segwitv0" => pol.compile::<Segwitv0>().is_ok(),
+            _ => pol.compile::<Tap>().is_ok(),
+        }))
+        .unwrap_or(false)
+    }
+    if mode == "string" {
+        go::<String>(p, mode, ctx)
+    } else {
+        go::<DefiniteDescriptorKey>(p, mode, ctx)
+    }
 }
